@@ -237,6 +237,7 @@ def run_check(prop_id: str, tier: str, *, base_seed: int | None = None, budget_s
         i = job["_i"]
         if res.get("timeout"):
             agg["timeouts"] += 1
+            agg.setdefault("timeout_seeds", []).append(job.get("seed"))
             key = ("HARNESS-TIMEOUT", "timeout")
             if getattr(prop, "TIMEOUT_IS_VERDICT", False):
                 violations.setdefault(key, {"job": job, "res": res})
@@ -380,7 +381,7 @@ def run_check(prop_id: str, tier: str, *, base_seed: int | None = None, budget_s
                     lines.append(f"HARNESS-ERROR property={prop_id} {e.get('error')}\n{e.get('trace', '')}")
         if agg["timeouts"] and not getattr(prop, "TIMEOUT_IS_VERDICT", False):
             rc = 2
-            lines.append(f"HARNESS-TIMEOUT property={prop_id} runs_timed_out={agg['timeouts']}")
+            lines.append(f"HARNESS-TIMEOUT property={prop_id} runs_timed_out={agg['timeouts']} seeds={agg.get('timeout_seeds', [])[:5]}")
 
         minimised = []
         if violations and rc == 0:
